@@ -14,7 +14,7 @@ CONSTANTS K,        \* number of header lines drawn from the pool (besides an op
 
 H(n, v)            == GenHdrLine(n, WS0, WS1, v, WS0, CRLF)
 \* the pool is indexed lazily (TLC would otherwise rebuild all lines for every message)
-PoolSize == 48
+PoolSize == 51
 PoolLine(i) ==
   CASE i = 1 -> H(N_From, V_from1)
     [] i = 2 -> GenHdrLine(N_f, WS0, WS0, V_from3, WS0, LFONLY)
@@ -63,7 +63,10 @@ PoolLine(i) ==
     [] i = 45 -> GenHdrLine(N_Route, WS0, WS0, V_empty, WS0, LFONLY)
     [] i = 46 -> GenHdrLine(N_v, WS1, WS1, V_empty, WS1, CRLF)
     [] i = 47 -> GenHdrLine(N_maxfwd, WS0, WS0, V_empty, WS0, CRLF)
-    [] i = 48 -> H(N_L, V_x1)
+    [] i = 48 -> GenHdrLine(N_Contact, WS0, WS1, V_contact3, WS2, CRLF)
+    [] i = 49 -> GenHdrLine(N_m, WS0, WS0, V_contact3, WS1, LFONLY)
+    [] i = 50 -> GenHdrLine(N_PAI, WS0, WS1, V_pai1, WS2, CRLF)
+    [] i = 51 -> H(N_L, V_x1)
 \* NOTE: the last line "L: bar" is a Content-Length header by name with a non-numeric value: NOT well formed,
 \* it is excluded from the well-formed pool below and only used by near-miss explorations.
 NPool == PoolSize - 1
@@ -89,8 +92,9 @@ FramingLines(idx, clen, pos, nm) ==
   IF clen < 0 THEN Lines(idx)
   ELSE IF pos = 0 THEN <<CLenLine(nm, clen, CRLF)>> \o Lines(idx) ELSE Lines(idx) \o <<CLenLine(nm, clen, CRLF)>>
 ChoicesFraming == {1, 6} \X (UNION { [1..k -> {1, 8, 11, 14, 19, 33}] : k \in 1..(IF K > 2 THEN 2 ELSE K) })
-                  \X {-1, 0, 2, 3, 4, 12, 13, 600} \X {0, 1} \X {N_CLen, N_l} \X (1..Len(Bodies)) \X (0..7)
-MsgFraming(x) == GenMsg(0, 34, FLs[x[1]], CRLF, FramingLines(x[2], x[3], x[4], x[5]), CRLF, Bodies[x[6]], x[3], x[7], 64)
+                  \X {-1, 0, 2, 3, 4, 12, 13, 600} \X {0, 1} \X {N_CLen, N_l} \X (1..Len(Bodies)) \X (0..7) \X {CRLF, LFONLY}
+\* (the blank line is CRLF or a lone LF -- the latter also as the very last byte of the buffer when the body is empty)
+MsgFraming(x) == GenMsg(0, 34, FLs[x[1]], CRLF, FramingLines(x[2], x[3], x[4], x[5]), x[8], Bodies[x[6]], x[3], x[7], 64)
 
 \* slice "caps": header capacity smaller than the number of headers (stored prefix, total count): C07 / C13
 ChoicesCaps == (UNION { [1..k -> {1, 5, 8, 11, 14, 19, 20, 27, 30, 33, 35, 44, 45, 46}] : k \in 1..K }) \X {-1, 0, 1, 2}
@@ -118,7 +122,8 @@ CLine(k) == CASE k = 1 -> [l |-> H(N_Contact, VC_e10), e |-> <<10>>]
               [] k = 4 -> [l |-> H(N_Contact, VC_e3), e |-> <<3>>]
               [] k = 5 -> [l |-> H(N_X, V_x1), e |-> <<>>]
               [] k = 6 -> [l |-> H(N_Expires, V_expires3), e |-> <<>>]
-ChoicesCExp == (UNION { [1..k -> 1..6] : k \in 2..K }) \X {-1, 0, 1, 2}
+              [] k = 7 -> [l |-> H(N_m, VC_e3600z), e |-> <<3600>>]
+ChoicesCExp == (UNION { [1..k -> 1..7] : k \in 2..K }) \X {-1, 0, 1, 2}
 RECURSIVE CatSeq(_, _)
 CatSeq(ss, k) == IF k > Len(ss) THEN <<>> ELSE ss[k] \o CatSeq(ss, k + 1)
 SMin(S) == CHOOSE x \in S : \A y \in S : x <= y
@@ -127,7 +132,7 @@ MsgCExp(x) ==
   LET idx == x[1]
       ls  == SubSeq([j \in 1..Len(idx) |-> CLine(idx[j]).l], 1, Len(idx))
       es  == CatSeq(SubSeq([j \in 1..Len(idx) |-> CLine(idx[j]).e], 1, Len(idx)), 1)
-      hno == Cardinality({j \in 1..Len(idx) : idx[j] <= 4})
+      hno == Cardinality({j \in 1..Len(idx) : idx[j] <= 4 \/ idx[j] = 7})
       hasE == \E j \in 1..Len(idx) : idx[j] = 6
       S   == {es[j] : j \in 1..Len(es)}
       m   == GenMsg(0, 34, FLs[2], CRLF, ls, CRLF, BODY0, -1, 0, 64)
